@@ -141,6 +141,7 @@ type c02Sim struct {
 	inlineAll  bool
 	// boolPhisOnly: do not track which edge a non-boolean phi took (large event loops)
 	boolPhisOnly bool
+	discovered   bool
 }
 
 const c02MaxSteps = 400000
@@ -279,6 +280,10 @@ func (s *c02Sim) rootOf(v ssa.Value, f *c02Frame, st *c02State) c02VF {
 					v, f = ret.Results[x.Index], nf
 					continue
 				}
+				if r, ok := s.sentinelReturn(call, x.Index, f, st); ok {
+					v, f = r.V, r.F
+					continue
+				}
 			}
 			return c02VF{v, f}
 		case *ssa.Call:
@@ -292,6 +297,12 @@ func (s *c02Sim) rootOf(v ssa.Value, f *c02Frame, st *c02State) c02VF {
 				if ret, nf := s.singleReturn(x, f, st); ret != nil && len(ret.Results) == 1 {
 					v, f = ret.Results[0], nf
 					continue
+				}
+				if _, isTuple := x.Type().(*types.Tuple); !isTuple {
+					if r, ok := s.sentinelReturn(x, 0, f, st); ok {
+						v, f = r.V, r.F
+						continue
+					}
 				}
 			}
 			return c02VF{v, f}
@@ -824,8 +835,12 @@ func (s *c02Sim) staticCall(v ssa.Value, f *c02Frame, st *c02State, name string)
 	return nil, nil
 }
 
-// c02LoopBodyEntries returns the in-loop successors of the loop header (the start of an iteration).
+// c02LoopBodyEntries returns where an iteration starts: for a slice loop the in-range successor of its bound test (an
+// element remains), otherwise the in-loop successors of the loop header.
 func c02LoopBodyEntries(l *an.Loop) []*ssa.BasicBlock {
+	if bd := c02LoopBound(l); bd != nil {
+		return []*ssa.BasicBlock{bd.iff.Block().Succs[bd.inRange]}
+	}
 	var out []*ssa.BasicBlock
 	for _, s := range l.Header.Succs {
 		if l.Body[s] && s != l.Header {
@@ -835,68 +850,120 @@ func c02LoopBodyEntries(l *an.Loop) []*ssa.BasicBlock {
 	return out
 }
 
-// c02LoopFull: the loop visits every element of its collection: its header leaves on `i < len(coll)` and
-// the induction variable starts at the first element and advances by one.
+// c02LoopFull: the loop steps through every element of its collection: a map/channel range, or a slice loop whose
+// induction variable starts at the first element and advances by one on every way round. Whether the loop can be left
+// for another reason while elements remain is a separate, path-based question (c02ScanLeftOnlyToReject).
 func c02LoopFull(l *an.Loop) (bool, string) {
 	for _, in := range l.Header.Instrs {
-		switch x := in.(type) {
-		case *ssa.Next:
+		if x, ok := in.(*ssa.Next); ok {
 			if _, ok := x.Iter.(*ssa.Range); ok {
 				return true, ""
 			}
-		case *ssa.If:
-			bin, ok := x.Cond.(*ssa.BinOp)
-			if !ok || bin.Op != token.LSS {
-				return false, "loop condition is not `index < len(collection)`"
-			}
-			// range-over-slice form: idx = phi+1 with phi starting at -1; three-clause form: phi starting at 0
-			var phi *ssa.Phi
-			start := int64(0)
-			switch y := bin.X.(type) {
-			case *ssa.Phi:
-				phi = y
-			case *ssa.BinOp:
-				if p, ok := y.X.(*ssa.Phi); ok && y.Op == token.ADD {
-					if k, ok := an.ConstInt(y.Y); ok && k == 1 {
-						phi, start = p, -1
-					}
-				}
-			}
-			if phi == nil || phi.Block() != l.Header {
-				return false, "loop index is not an induction variable of the loop"
-			}
-			for i, e := range phi.Edges {
-				pred := l.Header.Preds[i]
-				if l.Body[pred] {
-					// latch edge: phi + 1 (three-clause) or the incremented index itself (range form)
-					if start == -1 {
-						if e != bin.X {
-							return false, "loop index is modified inside the loop"
-						}
-						continue
-					}
-					inc, ok := e.(*ssa.BinOp)
-					if !ok || inc.Op != token.ADD || inc.X != ssa.Value(phi) {
-						return false, "loop index does not advance by one"
-					}
-					if k, ok := an.ConstInt(inc.Y); !ok || k != 1 {
-						return false, "loop index does not advance by one"
-					}
-					continue
-				}
-				if k, ok := an.ConstInt(e); !ok || k != start {
-					return false, "loop does not start at the first element"
-				}
-			}
-			return true, ""
 		}
 	}
-	return false, "loop form not recognised"
+	bd := c02LoopBound(l)
+	if bd == nil {
+		return false, "no `index < len(collection)` test found that bounds the loop"
+	}
+	phi := bd.phi
+	for i, e := range phi.Edges {
+		pred := l.Header.Preds[i]
+		if l.Body[pred] {
+			// way round: phi + 1 (three-clause) or the incremented index itself (range form)
+			if bd.start == -1 {
+				if b, ok := e.(*ssa.BinOp); !ok || b.Op != token.ADD || b.X != ssa.Value(phi) {
+					return false, "loop index is modified inside the loop"
+				} else if k, ok := an.ConstInt(b.Y); !ok || k != 1 {
+					return false, "loop index is modified inside the loop"
+				}
+				continue
+			}
+			inc, ok := e.(*ssa.BinOp)
+			if !ok || inc.Op != token.ADD {
+				return false, "loop index does not advance by one"
+			}
+			x, y := inc.X, inc.Y
+			if x != ssa.Value(phi) {
+				x, y = y, x
+			}
+			if x != ssa.Value(phi) {
+				return false, "loop index does not advance by one"
+			}
+			if k, ok := an.ConstInt(y); !ok || k != 1 {
+				return false, "loop index does not advance by one"
+			}
+			continue
+		}
+		if k, ok := an.ConstInt(e); !ok || k != bd.start {
+			return false, "loop does not start at the first element"
+		}
+	}
+	return true, ""
+}
+
+// c02ScanLeftOnlyToReject: while elements remain, loop l of frame f cannot be left towards an accepting return — neither
+// from its body (break / return) nor by another clause of its condition (`for i := 0; ok && i < n; i++`). Explored from
+// the loop header under "an element remains" until the next time round.
+func c02ScanLeftOnlyToReject(s *c02Sim, f *c02Frame, l *an.Loop, accepting func(r *ssa.Return, st *c02State) bool) (ok bool, exhausted bool) {
+	bd := c02LoopBound(l)
+	oa, oi, ob, or := s.atom, s.onInstr, s.onBlock, s.onRet
+	defer func() { s.atom, s.onInstr, s.onBlock, s.onRet = oa, oi, ob, or }()
+	s.onInstr = nil
+	s.atom = nil
+	if bd != nil {
+		s.atom = func(v ssa.Value, fr *c02Frame, st *c02State) (bool, bool) {
+			if v == ssa.Value(bd.cmp) && fr == f {
+				return bd.inRange == 0, true
+			}
+			return false, false
+		}
+	}
+	s.onBlock = func(b *ssa.BasicBlock, fr *c02Frame, st *c02State) c02Act {
+		if b == l.Header && fr == f {
+			return c02Stop
+		}
+		return c02Go
+	}
+	bad := false
+	s.onRet = func(r *ssa.Return, st *c02State) {
+		if accepting(r, st) {
+			bad = true
+		}
+	}
+	if bd != nil {
+		s.startAt(f, l.Header, 0)
+	} else {
+		for _, b := range c02LoopBodyEntries(l) {
+			s.startAt(f, b, 0)
+		}
+	}
+	return !bad, s.exhausted
 }
 
 // c02InPkgCallers returns the static call sites of fn (generic origin) in its package.
+// c02PkgOf returns the package of fn (of its outermost enclosing function for literals).
+func c02PkgOf(fn *ssa.Function) *ssa.Package {
+	fn = an.Orig(fn)
+	pk := fn.Pkg
+	for p := fn; pk == nil && p != nil; p = p.Parent() {
+		pk = an.Orig(p).Pkg
+	}
+	return pk
+}
+
+var c02CallersMemo = map[*ssa.Function][]ssa.CallInstruction{}
+
 func c02InPkgCallers(fn *ssa.Function) []ssa.CallInstruction {
 	fn = an.Orig(fn)
+	if v, ok := c02CallersMemo[fn]; ok {
+		return v
+	}
+	out := c02InPkgCallersRaw(fn)
+	c02CallersMemo[fn] = out
+	return out
+}
+
+func c02InPkgCallersRaw(fn *ssa.Function) []ssa.CallInstruction {
 	pk := fn.Pkg
 	for p := fn; pk == nil && p != nil; p = p.Parent() {
 		pk = p.Pkg
@@ -905,7 +972,7 @@ func c02InPkgCallers(fn *ssa.Function) []ssa.CallInstruction {
 		return nil
 	}
 	var out []ssa.CallInstruction
-	for _, g := range an.PkgFuncs(pk) {
+	for _, g := range c02PkgFuncs(pk) {
 		for _, in := range an.Instrs(g, false) {
 			ci, ok := in.(ssa.CallInstruction)
 			if !ok || ci.Common().IsInvoke() {
@@ -920,13 +987,24 @@ func c02InPkgCallers(fn *ssa.Function) []ssa.CallInstruction {
 }
 
 // c02FnUsedAsValue: fn is referenced other than as the callee of a static call.
+var c02UsedAsValueMemo = map[*ssa.Function]bool{}
+
 func c02FnUsedAsValue(fn *ssa.Function) bool {
 	fn = an.Orig(fn)
+	if v, ok := c02UsedAsValueMemo[fn]; ok {
+		return v
+	}
+	v := c02FnUsedAsValueRaw(fn)
+	c02UsedAsValueMemo[fn] = v
+	return v
+}
+
+func c02FnUsedAsValueRaw(fn *ssa.Function) bool {
 	pk := fn.Pkg
 	if pk == nil {
 		return true
 	}
-	for _, g := range an.PkgFuncs(pk) {
+	for _, g := range c02PkgFuncs(pk) {
 		for _, in := range an.Instrs(g, false) {
 			for _, op := range an.Operands(in) {
 				f2, ok := op.(*ssa.Function)
@@ -1018,6 +1096,33 @@ func c02StaticCellD(a ssa.Value, d int) c02Cell {
 		if base.ok() {
 			return c02Cell{base.al, fmt.Sprintf("%s.%d", base.path, x.Field)}
 		}
+	case *ssa.Parameter:
+		// a pointer to the state handed to a helper or method (receiver): every in-package call site must pass
+		// the address of the same variable
+		fn := x.Parent()
+		if fn == nil || fn.Parent() != nil {
+			return c02Cell{}
+		}
+		if _, isPtr := x.Type().Underlying().(*types.Pointer); !isPtr {
+			return c02Cell{}
+		}
+		idx := c02ParamIndex(fn, x)
+		sites := c02InPkgCallers(fn)
+		if idx < 0 || len(sites) == 0 || c02FnUsedAsValue(fn) {
+			return c02Cell{}
+		}
+		var out c02Cell
+		for _, s := range sites {
+			if idx >= len(s.Common().Args) {
+				return c02Cell{}
+			}
+			c := c02StaticCellD(s.Common().Args[idx], d+1)
+			if !c.ok() || (out.ok() && out != c) {
+				return c02Cell{}
+			}
+			out = c
+		}
+		return out
 	case *ssa.UnOp:
 		// `st := &state{...}` held in a (captured) variable: the pointee is the cell
 		if x.Op == token.MUL {
@@ -1036,7 +1141,31 @@ func c02StaticCellD(a ssa.Value, d int) c02Cell {
 
 // c02CellStores returns every store into the state variable (or an enclosing struct of it), in its function
 // and all nested literals.
+var (
+	c02CellStoresMemo = map[c02Cell][]*ssa.Store{}
+	c02CellStoresBusy = map[c02Cell]bool{}
+	c02CellStoresCut  int
+)
+
 func c02CellStores(cell c02Cell) []*ssa.Store {
+	if v, ok := c02CellStoresMemo[cell]; ok {
+		return v
+	}
+	if c02CellStoresBusy[cell] {
+		c02CellStoresCut++
+		return nil
+	}
+	c02CellStoresBusy[cell] = true
+	cut := c02CellStoresCut
+	out := c02CellStoresRaw(cell)
+	delete(c02CellStoresBusy, cell)
+	if cut == c02CellStoresCut { // nothing below was cut short by the recursion guard
+		c02CellStoresMemo[cell] = out
+	}
+	return out
+}
+
+func c02CellStoresRaw(cell c02Cell) []*ssa.Store {
 	var out []*ssa.Store
 	if !cell.ok() || cell.al.Parent() == nil {
 		return nil
@@ -1045,7 +1174,21 @@ func c02CellStores(cell c02Cell) []*ssa.Store {
 	for top.Parent() != nil {
 		top = top.Parent()
 	}
-	for _, g := range an.Closure(top) {
+	// the variable's own function and its literals, and — the state may be handed on by address — every
+	// other function of the package
+	fns := an.Closure(top)
+	if pk := c02PkgOf(top); pk != nil {
+		seen := map[*ssa.Function]bool{}
+		for _, g := range fns {
+			seen[g] = true
+		}
+		for _, g := range c02PkgFuncs(pk) {
+			if !seen[g] {
+				fns = append(fns, g)
+			}
+		}
+	}
+	for _, g := range fns {
 		for _, in := range an.Instrs(g, false) {
 			if st, ok := in.(*ssa.Store); ok {
 				if _, isAl := st.Addr.(*ssa.Alloc); isAl && st.Addr != ssa.Value(cell.al) {
@@ -1208,6 +1351,41 @@ func c02TrackableLocal(al *ssa.Alloc) bool {
 		}
 	}
 	return true
+}
+
+// sentinelReturn: the call is to a followed function with several returns whose result idx is, on every return, either a
+// constant (the "nothing"/nil/zero sentinel of an early exit) or one and the same value: without a path to tell which
+// return was taken, that value is what the result denotes whenever it is not the sentinel.
+func (s *c02Sim) sentinelReturn(call *ssa.Call, idx int, f *c02Frame, st *c02State) (c02VF, bool) {
+	if s.inResolve > 6 {
+		return c02VF{}, false
+	}
+	s.inResolve++
+	defer func() { s.inResolve-- }()
+	fn, mc, cf := s.calleeOf(call, f, st)
+	if fn == nil {
+		return c02VF{}, false
+	}
+	rets := an.Returns(fn)
+	if len(rets) < 2 {
+		return c02VF{}, false
+	}
+	nf := s.frameFor(f, call, fn, mc, cf)
+	var pick c02VF
+	for _, ret := range rets {
+		if idx >= len(ret.Results) {
+			return c02VF{}, false
+		}
+		r := s.rootOf(ret.Results[idx], nf, nil)
+		if _, isC := r.V.(*ssa.Const); isC {
+			continue
+		}
+		if pick.V != nil && (pick.V != r.V || pick.F != r.F) {
+			return c02VF{}, false
+		}
+		pick = r
+	}
+	return pick, pick.V != nil
 }
 
 // singleReturn: the call is to a function the exploration follows that has exactly one return statement; its
